@@ -10,7 +10,7 @@ LEAN_MODULES = ['MV.Props.C01', 'MV.Props.C01b']
 LEAN_HELPERS = ['MV.Lemmas.Shift', 'MV.Lemmas.Ext', 'MV.Lemmas.Scale', 'MV.Model.Pitch', 'MV.Model.Rel', 'MV.Model.Basic', 'MV.Model.Types']
 DRIVERS = ['C01']
 GEN = ['Tables', 'Library']
-SRC_TIE = ['SrcPitch']   # py2lean source images proved equal to the model (MV/Props/Tie*.lean)
+SRC_TIE = ['SrcPitch', 'SrcOps']   # py2lean source images proved equal to the model (MV/Props/Tie*.lean)
 RULE = ('stratified (chord, note) pairs: every mode x degree x base figure at least once, random tonic/octaves, '
         'modifiers, all five non-relative systems, accidentals and per-note modes; a case is non-trivial when the '
         'note sounds (kind in s h c b a d); distinct = distinct request line')
@@ -48,7 +48,8 @@ def deg_semitone(L, j):
 
 def expected_pitch(chord, note):
     """the documented pitch of a non-relative note (None when this oracle has no opinion)"""
-    t = chord.tonality
+    from musiclang import Tonality
+    t = chord.tonality if chord.tonality is not None else Tonality(0)      # a bare chord is in C major
     mode = note.mode if note.mode is not None else t.mode
     L = spec_scale(mode)
     base = t.degree + 12 * t.octave + 12 * chord.octave
@@ -74,11 +75,17 @@ def expected_pitch(chord, note):
     return None
 
 
+def mk_chord(inp):
+    """the chord of an input; `bare` = written without a tonality (the library then means C major)"""
+    from musiclang import Chord, Tonality
+    ton = None if inp.get('bare') else Tonality(inp['deg'], inp['mode'], inp['toct'])
+    return Chord(inp['elem'], extension=inp['ext'], tonality=ton, octave=inp['coct'])
+
+
 def check_pitch(inp):
     """oracle `pitch`: inp = dict(elem, ext, deg, mode, toct, coct, note=(type,val,oct,mode,acc))"""
-    from musiclang import Chord, Tonality, Note
-    c = Chord(inp['elem'], extension=inp['ext'], tonality=Tonality(inp['deg'], inp['mode'], inp['toct']),
-              octave=inp['coct'])
+    from musiclang import Note
+    c = mk_chord(inp)
     k, v, o, m, a = inp['note']
     n = Note(k, v, o, 1, mode=m, accident=a)
     try:
@@ -99,9 +106,7 @@ def check_pitch(inp):
 
 def check_arpeggio(inp):
     """plain figures: chord tones are stacked thirds of the chord scale, inversions rotate them"""
-    from musiclang import Chord, Tonality
-    c = Chord(inp['elem'], extension=inp['ext'], tonality=Tonality(inp['deg'], inp['mode'], inp['toct']),
-              octave=inp['coct'])
+    c = mk_chord(inp)
     L = spec_scale(inp['mode'])
     base = inp['deg'] + 12 * inp['toct'] + 12 * inp['coct']
     size = {'': 3, '5': 3, '6': 3, '64': 3, '7': 4, '65': 4, '43': 4, '2': 4, '9': 5, '11': 6, '13': 7}[inp['ext']]
@@ -132,13 +137,30 @@ def check_acc_table(inp):
     return None if ok else {'observed': row, 'expected': f'natural=maj={nat}, dim<=min<=natural<=aug within a semitone'}
 
 
-ORACLES = {'pitch': check_pitch, 'arpeggio': check_arpeggio, 'scale_table': check_scale_table,
-           'acc_table': check_acc_table}
 
 
 def chord_inp(c, text):
+    if c.tonality is None:
+        return {'elem': int(c.element), 'ext': text, 'deg': 0, 'mode': 'M', 'toct': 0, 'coct': int(c.octave), 'bare': True}
     return {'elem': int(c.element), 'ext': text, 'deg': int(c.tonality.degree), 'mode': c.tonality.mode,
             'toct': int(c.tonality.octave), 'coct': int(c.octave)}
+
+
+def check_spelling(inp):
+    """oracle `spelling`: flats and sharps move a tonality by exactly one semitone each, whatever the spelling crosses
+    (C flat is below C, B sharp above B), keep the mode and leave the degree in 0..11"""
+    from musiclang import Tonality
+    t = Tonality(inp['deg'], inp['mode'], inp['oct'])
+    want = inp['deg'] + 12 * inp['oct']
+    for ch in inp['chain']:
+        t = t.b if ch == 'b' else t.s
+        want += -1 if ch == 'b' else 1
+    got = (int(t.degree) + 12 * int(t.octave), t.mode, 0 <= t.degree < 12)
+    return None if got == (want, inp['mode'], True) else {'observed': got, 'expected': (want, inp['mode'], True)}
+
+
+ORACLES = {'pitch': check_pitch, 'arpeggio': check_arpeggio, 'scale_table': check_scale_table,
+           'acc_table': check_acc_table, 'spelling': check_spelling}
 
 
 def gen_pairs(ctx, n_random):
@@ -162,6 +184,11 @@ def gen_pairs(ctx, n_random):
             c, text = gen.rand_chord(rng, ext='')
             from musiclang import Note
             pairs.append((c, text, Note('s', v, rng.randint(-2, 2), 1, accident=a)))
+    # bare chords: written without a tonality (C major is meant), at any chord octave (seed C02-4)
+    for _ in range(12 + n_random // 60):
+        fig = rng.choice(gen.FIGS)
+        c = Chord(rng.randrange(7), extension=fig, tonality=None, octave=rng.randint(-3, 3))
+        pairs.append((c, fig, gen.rand_note(rng, p_mode=0.1)))
     # drums / rests / continuations / pattern notes
     from musiclang import Note
     for k in ['d', 'r', 'l', 'x']:
@@ -177,7 +204,7 @@ def correspondence(ctx):
         line = sx('pitch', enc_chord(c, ext_text=text), enc_note(n), '-')
         impl = py_res(lambda: c.to_pitch(n), show_opt_int)
         cases.append({'line': line, 'impl': impl, 'input': {**chord_inp(c, text), 'note': (n.type, int(n.val), int(n.octave), n.mode, n.accident)},
-                      'bucket': [f'kind={n.type}', f'mode={c.tonality.mode}', f'fig={core.split_ext(text)[0]}',
+                      'bucket': [f'kind={n.type}', f'mode={c.tonality.mode if c.tonality is not None else "bare"}', f'fig={core.split_ext(text)[0]}',
                                  'acc' if n.accident else 'noacc', 'notemode' if n.mode else 'chordmode'],
                       'nontrivial': n.type in 'shcbad'})
     ctx.compare('pitch', 'C01', cases)
@@ -185,7 +212,8 @@ def correspondence(ctx):
     cases = []
     seen = set()
     for c, text, _ in pairs:
-        key = (c.element, text, c.tonality.degree, c.tonality.mode, c.tonality.octave, c.octave)
+        key = (c.element, text, c.tonality.degree, c.tonality.mode, c.tonality.octave, c.octave) if c.tonality is not None \
+            else (c.element, text, 'bare', c.octave)
         if key in seen:
             continue
         seen.add(key)
@@ -199,7 +227,7 @@ def correspondence(ctx):
     ctx.compare('chord', 'C01', cases)
     # kernel-level streams of the source tie (DESIGN §9.6)
     import srctie
-    srctie.run(ctx, SRC_TIE)
+    srctie.run(ctx, SRC_TIE, kernels=['v2s', 'npr', 'cscale', 'cchrom', 'tscale', 'to', 'tflat', 'tsharp', 'co'])
 
 
 def oracle(ctx):
@@ -229,8 +257,23 @@ def oracle(ctx):
             continue
         if r:
             ctx.fail(f'pitch:{inp["note"][0]}', inp, r['observed'], r['expected'], oracle='pitch')
-    # plain arpeggios: all figures x degrees x modes
+    # enharmonic spellings: chains of flats / sharps from every tonic, across the C / B edge of the table (seed C01-4)
     rng = ctx.rng
+    for deg in range(12):
+        for chain in ['b', 's', 'bb', 'ss', 'bs', 'sb', 'bbb', 'sss'] + [''.join(rng.choice('bs') for _ in range(rng.randint(1, 5)))]:
+            inp = {'deg': deg, 'mode': rng.choice(gen.MODES), 'oct': rng.randint(-2, 2), 'chain': chain}
+            ctx.count('oracle', key=str(inp), bucket='spelling')
+            r = check_spelling(inp)
+            if r:
+                ctx.fail(f'spelling:{chain[0]}', inp, r['observed'], r['expected'], oracle='spelling')
+    # plain arpeggios: all figures x degrees x modes, and bare chords (no tonality) at several octaves
+    for fig in gen.FIGS:
+        for elem in range(7):
+            inp = {'elem': elem, 'ext': fig, 'deg': 0, 'mode': 'M', 'toct': 0, 'coct': rng.randint(-2, 2), 'bare': True}
+            ctx.count('oracle', key=str(inp), bucket='arpeggio:bare')
+            r = check_arpeggio(inp)
+            if r:
+                ctx.fail(f'arpeggio:bare:{fig}', inp, r['observed'], r['expected'], oracle='arpeggio')
     for mode in gen.MODES:
         for elem in range(7):
             for fig in gen.FIGS:
